@@ -103,6 +103,8 @@ def kernel_facets(run, fam, ax):
                 run.prove(nm, fn, H, E.clear_formula(S.zz(L[i, j]) == J) if _has_div(J, L[i, j]) else S.zz(L[i, j]) == J, replay=rp)
             tr = tr + L[i, i]
         run.prove(f"{tag}/trace-free" + (f" (path{pi})" if len(ex.paths) > 1 else ""), fn, H, E.clear_formula(S.zz(tr) == 0), replay=rp)
+        if run.tier == "thorough":
+            _sympy_crosscheck(run, tag, fn, u, x)
         # characterisation of the recorded known findings, so that a *different* deviation is still reported
         if fam == "simple_shear_2d":
             run.prove(f"{tag}/known-form: grad[d,p] == 2 * d u_d/d x_p and nothing else deviates", fn, H, S.zz(L[a, b]) == 2 * DF.d(S.zz(u[a]), S.zz(x[b])), structural=True)
@@ -359,7 +361,7 @@ def nat_pathlines(seed, count):
             msgs.append(f"raised {type(e).__name__}: {str(e)[:100]}")
         if msgs:
             fails.append(dict(case=f"{seed}.{it}", checker="contracts.C18:nat_path_case", inputs=dict(seed=int(seed), it=it, count=count, final=[round(float(v), 6) for v in final], flow=fam, axes=list(ax)),
-                              what=f"{fam}{ax}: " + "; ".join(msgs[:3]), known=known and fam == "cell_2d"))
+                              what=f"{fam}{ax}: " + "; ".join(msgs[:3]), known=known))
     return dict(evaluations=ev, failures=fails[:8])
 
 
@@ -367,3 +369,33 @@ def nat_path_case(seed, it, count, **kw):
     r = nat_pathlines(seed, count)
     hit = [f for f in r["failures"] if f["case"] == f"{seed}.{it}"]
     return dict(ok=not hit, failures=hit)
+
+
+def _sympy_crosscheck(run, tag, fn, u, x):
+    """A-DIFF cross-check (thorough tier): the structural derivative agrees with sympy.diff at random rational points."""
+    import random
+
+    import sympy as sp
+
+    rnd = random.Random(7)
+    ok, detail = True, ""
+    try:
+        for i in range(3):
+            ui = u[i]
+            if not isinstance(ui, Sym):
+                continue
+            env = {}
+            e = DF.to_sympy(ui.z, env)
+            for j in range(3):
+                xs = env.get(f"x_{j}")
+                ours = DF.to_sympy(DF.d(ui.z, S.zz(x[j])), env)
+                theirs = sp.diff(e, xs) if xs is not None else sp.Integer(0)
+                for _ in range(3):
+                    vals = {sy: sp.Rational(rnd.randint(-9, 9) or 1, rnd.randint(2, 9)) for sy in env.values()}
+                    a, b = sp.N(ours.subs(vals), 30), sp.N(theirs.subs(vals), 30)
+                    if abs(a - b) > sp.Float("1e-20") * (1 + abs(b)):
+                        ok, detail = False, f"d u_{i}/d x_{j}: {a} vs sympy {b}"
+    except Exception as ex:
+        run.undecided(f"{tag}/A-DIFF cross-check with sympy", fn, f"{type(ex).__name__}: {ex}")
+        return
+    run.exact(f"{tag}/A-DIFF cross-check: structural derivative == sympy.diff at random rational points", fn, ok, detail or "9 partial derivatives x 3 points")
